@@ -818,6 +818,17 @@ func TestC05_RollingDescriptors(t *testing.T) {
 			}
 			end := time.Now().Add(time.Duration(3500+r*400) * time.Millisecond)
 			i := 0
+			if r%2 == 1 {
+				// the directory is away while one boundary passes (a rotation fails): what the appender
+				// holds afterwards, and after Stop, is still at most two descriptors and then none
+				go func() {
+					time.Sleep(1200 * time.Millisecond)
+					if os.Rename(dir, dir+".away") == nil {
+						time.Sleep(1300 * time.Millisecond)
+						_ = os.Rename(dir+".away", dir)
+					}
+				}()
+			}
 			// odd runs: several writers hammer the appender around every boundary; a quiescent
 			// point is reached by taking the writers' lock exclusively
 			var quiet sync.RWMutex
